@@ -179,7 +179,7 @@ theorem aave_supIs_changeCollateral (x : Option SupplyInfo) {t : String} (ht : t
     fun info => aave_supIs_setOther x ht _ (fun s => ⟨info, rfl⟩)
   have hupd : Inv (SupIs tok x) setUpdated := aave_supIs_modify x _ (fun _ => rfl)
   unfold changeCollateral guardOpen lookupSupply
-  repeat (first | exact hflag _ | inv_step)
+  repeat (first | exact hflag _ | exact Inv.onError h9 (fun s hs => hflag _ s hs) | inv_step)
 
 /-- **an operation that does not target `tok`'s supply leaves that entry exactly as it is** — in any bar, any
     arithmetic, accepted or rejected (reads, operations on other tokens, borrow, cash repay, bar change). -/
